@@ -93,7 +93,7 @@ PROPS = {
                  claim='the same round trip for the values in which an array of two or more zero-width elements (null, empty list) occurs', bound='30 values (as above, restricted to that class)'),
         ],
         units=['SERHDR', 'SERSTR', 'SERFIX', 'READERS', 'MESSAGE', 'SEQACCESS'], kani=K_RT, level='proof', title='Codec round trip (fixed- and variable-width primitives, compound headers)',
-        lemmas={'READERS': ['lemma_var_round_trip', 'lemma_be32_inverse', 'lemma_be64_inverse', 'lemma_fixed_round_trip_u64', 'lemma_fixed_round_trip_u32', 'lemma_fixed_round_trip_u8'], 'MESSAGE': ['lemma_message_round_trip', 'lemma_run', 'lemma_fold_concat', 'lemma_fold_opt']},
+        lemmas={'READERS': ['lemma_var_round_trip', 'lemma_be32_inverse', 'lemma_be64_inverse', 'lemma_fixed_round_trip_u64', 'lemma_fixed_round_trip_u32', 'lemma_fixed_round_trip_u8', 'lemma_fixed_round_trip_i32', 'lemma_fixed_round_trip_i64'], 'MESSAGE': ['lemma_message_round_trip', 'lemma_run', 'lemma_fold_concat', 'lemma_fold_opt']},
         assumptions=[VARW,
             'PROVED for every value: the fixed-width primitives listed in the obligations (Kani harnesses, loop-free / fully unwound over the full domain) and the compound header writers (Verus)',
             'BOUNDED ONLY (listed under bounded_obligations, never counted as proved): decoders on short byte strings, compound headers with hostile size/count bytes',
@@ -102,7 +102,7 @@ PROPS = {
             'messages: Message::serialize is proved to hand the serializer exactly the sections that are set, in the AMQP order, and the Message visitor (visit_seq, FieldVisitor::visit_u64) to rebuild the same sections from them (lemma_message_round_trip, all 64 presence combinations, body descriptors 0x75-0x77); the encoding of each section value (derive output), the body types (incl. batches of Data/AmqpSequence) and symbolic descriptors (visit_str) are not under contract']),
     'C05': dict(
         units=['SERHDR', 'SERSTR', 'SERFIX', 'READERS'], kani=K_RT + K_DEC, level='proof', title='Valid encodings / every variant accepted (fixed- and variable-width primitives, compound headers)',
-        lemmas={'READERS': ['lemma_var_round_trip', 'lemma_be32_inverse', 'lemma_be64_inverse', 'lemma_fixed_round_trip_u64', 'lemma_fixed_round_trip_u32', 'lemma_fixed_round_trip_u8']},
+        lemmas={'READERS': ['lemma_var_round_trip', 'lemma_be32_inverse', 'lemma_be64_inverse', 'lemma_fixed_round_trip_u64', 'lemma_fixed_round_trip_u32', 'lemma_fixed_round_trip_u8', 'lemma_fixed_round_trip_i32', 'lemma_fixed_round_trip_i64']},
         assumptions=[VARW,
             'PROVED for every value: the fixed-width primitives listed in the obligations (Kani harnesses, loop-free / fully unwound over the full domain) and the compound header writers (Verus)',
             'BOUNDED ONLY (listed under bounded_obligations, never counted as proved): decoders on short byte strings, compound headers with hostile size/count bytes',
